@@ -138,6 +138,7 @@ def dispatch (op : String) (args : List Str) : String :=
   | "attrs", [w, s] => opAttrs (String.ofList w == "cur") s
   | "pipeline", [s] => opAccept "cur" s
   | "roundtrip", [s] => opRoundtrip s
+  | "thm04", [s] => opThm04 s
   | "chardata", k :: c :: ops => chardata (String.ofList k) c ops
   | "dom", t :: _ :: ops => opDom t ops
   | "query", t :: b :: es => opQuery "rz" t b es
